@@ -308,6 +308,16 @@ def rule_scan_loops(ctx: Ctx, rule: str, which: set[str] | None = None) -> None:
                 (isinstance(v, Opaque) and v.tag == entry and p.decisions.get(entry) is False)
             if not ok:
                 bad_m.append(f'after an iteration on {c!r} the marker is {_tag(v)[:50]}')
+    # the internal capture marker `(?#)` is removed textually from finished regexes: a bracket must not be able to spell it
+    marker_rows = [p for p in rows if _char(p, scan) == '#']
+    okm = bool(marker_rows)
+    for p in marker_rows:
+        vals = [e[2][0] for e in p.of('call') if e[1].endswith('.append') and e[2]] + \
+               [e[2][1] for e in p.of('call') if e[1] == f'{WP}:WcParse._sequence_range_check' and len(e[2]) > 1]
+        okm = okm and any(isinstance(v, Tok) and v.parts == ('\\', '{' + scan + '}') for v in vals)
+    emit(f'{WP}:WcParse._sequence/marker-not-spellable', okm, site, '`#` inside a bracket is emitted escaped, so `(?#)` cannot be formed by pattern text',
+         f'{len(marker_rows)} rows escape it' if okm else 'no row treats `#` specially: the characters ( ? # ) are all emitted raw',
+         "fnmatch.translate('[(?#)x]') must still contain the four characters ( ? # )")
     emit(f'{WP}:WcParse._sequence/set-operators-escaped', not bad_o and n_ops >= 3, site, 'c in & | ~: the character is emitted as `\\\\` + c', f'{n_ops} rows agree' if not bad_o else bad_o[0],
          "fnmatch('&', '[&&]') must not trigger Python's nested-set syntax")
     emit(f'{WP}:WcParse._sequence/posix-marker-cleared', not bad_m, site,
